@@ -191,11 +191,12 @@ type Ret struct {
 
 // Assign is an assignment to a receiver field inside IEncode (normalisation / length word).
 type Assign struct {
-	Field Path
-	Expr  ast.Expr
-	Info  *types.Info
-	Cond  ast.Expr // enclosing if condition (nil if unconditional)
-	Pos   token.Pos
+	Field     Path
+	Expr      ast.Expr
+	Info      *types.Info
+	Cond      ast.Expr // enclosing if condition (nil if unconditional)
+	Pos       token.Pos
+	OpsBefore int // number of top-level wire ops emitted before this assignment
 }
 
 // Seq is the wire sequence of one method.
@@ -455,7 +456,7 @@ func (w *walker) store(p Path, v val, rhsExpr ast.Expr, pos token.Pos) {
 		if len(w.condStack) > 0 {
 			cond = w.condStack[len(w.condStack)-1]
 		}
-		w.seq.Assigns = append(w.seq.Assigns, Assign{Field: p, Expr: rhsExpr, Info: w.info(), Cond: cond, Pos: pos})
+		w.seq.Assigns = append(w.seq.Assigns, Assign{Field: p, Expr: rhsExpr, Info: w.info(), Cond: cond, Pos: pos, OpsBefore: len(w.seq.Ops)})
 		return
 	}
 	switch v := v.(type) {
@@ -483,7 +484,7 @@ func (w *walker) store(p Path, v val, rhsExpr ast.Expr, pos token.Pos) {
 		if !w.encode {
 			// decode: a field assigned from something that is not a read (e.g. append of a read value)
 			if ap, ok := v.(vAppend); ok {
-				w.store(p.extend(Elem{Each: true}), ap.elem, rhsExpr, pos)
+				w.store(p.extend(Elem{Each: true, Index: -1}), ap.elem, rhsExpr, pos)
 				return
 			}
 			w.opaque(pos, fmt.Sprintf("field %s assigned from a non-read value %T", p, v))
@@ -628,7 +629,7 @@ func (w *walker) rangeStmt(s *ast.RangeStmt) {
 	if s.Value != nil && !isBlank(s.Value) {
 		if id, ok := s.Value.(*ast.Ident); ok {
 			if obj := w.info().Defs[id]; obj != nil {
-				w.env[obj] = vPath{P: xv.P.extend(Elem{Each: true})}
+				w.env[obj] = vPath{P: xv.P.extend(Elem{Each: true, Index: -1})}
 			}
 		}
 	}
